@@ -201,6 +201,43 @@ def resolve_unwindset(gb, spec):
     return out, notes
 
 
+_dup_cache = {}
+
+
+def duplicate_definitions(ctx, h, case, root, defs):
+    """goto-cc silently keeps the first of two definitions of a function.
+    Compile every translation unit natively and report external functions
+    defined in more than one of them (a stub in the harness must be paired
+    with a rename of the real definition in the spec)."""
+    key = (h["name"], tuple(sorted((k, str(v)) for k, v in defs.items() if k != "VF_N")))
+    if key in _dup_cache:
+        return _dup_cache[key]
+    wd = os.path.join(ctx.scratch, "dup_" + h["name"] + "_" + case["name"])
+    os.makedirs(wd, exist_ok=True)
+    src = os.path.join(root, "vf_harness", h["src"])
+    units = [os.path.join(root, u) for u in h.get("units", [])]
+    seen = {}
+    dups = []
+    for i, tu in enumerate([src] + units):
+        obj = os.path.join(wd, "tu%d.o" % i)
+        cmd = ["gcc", "-c", "-w", "-O0", "-DMATRIXSSL_VERIF", "-DVF_NATIVE"] + def_flags(defs) + inc_flags(root) + \
+            h.get("cflags", []) + [tu, "-o", obj]
+        rc, o, e, dt = run(cmd, timeout=600)
+        if rc != 0:
+            _dup_cache[key] = ["native compile of %s failed: %s" % (os.path.basename(tu), e[-800:])]
+            return _dup_cache[key]
+        rc, o, e, dt = run(["nm", "--defined-only", "-g", obj], timeout=60)
+        for line in o.splitlines():
+            parts = line.split()
+            if len(parts) == 3 and parts[1] == "T":
+                if parts[2] in seen and seen[parts[2]] != tu and parts[2] != "main":
+                    dups.append("%s (in %s and %s)" % (parts[2], os.path.basename(seen[parts[2]]), os.path.basename(tu)))
+                seen[parts[2]] = tu
+    shutil.rmtree(wd, ignore_errors=True)
+    _dup_cache[key] = dups
+    return dups
+
+
 def run_case(ctx, h, case, root):
     """one solver query (all properties of one harness/case).  Returns dict."""
     cname = "%s-%s" % (h["name"], case["name"])
@@ -214,6 +251,11 @@ def run_case(ctx, h, case, root):
     units = [os.path.join(root, u) for u in h.get("units", [])]
     t_all = time.time()
 
+    if units:
+        dups = duplicate_definitions(ctx, h, case, root, defs)
+        if dups:
+            res["detail"] = "duplicate definitions across translation units: %s" % dups[:6]
+            return res
     left = asm_left(root, src, defs, units) if h.get("asm_check", True) else []
     if left:
         res["detail"] = "not encodable: inline assembly left after asm2c: %s" % left[:3]
